@@ -1,6 +1,7 @@
 package main
 
 import (
+	"reflect"
 	_ "time/tzdata"
 	"bytes"
 	"crypto/ecdsa"
@@ -548,7 +549,19 @@ func init() {
 			}
 			return nil, errors.New("not found")
 		}
+		// Verify is an observer: the exchange it was given is the same afterwards (fields, header maps), and asking again gives the
+		// same answer
+		rqB, rsB := e.RequestHeaders.Clone(), e.ResponseHeaders.Clone()
+		uriB, mB, stB, sigB, plB := e.RequestURI, e.RequestMethod, e.ResponseStatus, e.SignatureHeaderValue, append([]byte{}, e.Payload...)
 		p, ok := e.Verify(time.Unix(sec, nsec), fetcher, log.New(ioutil.Discard, "", 0))
+		if !reflect.DeepEqual(rqB, e.RequestHeaders) || !reflect.DeepEqual(rsB, e.ResponseHeaders) || uriB != e.RequestURI || mB != e.RequestMethod ||
+			stB != e.ResponseStatus || sigB != e.SignatureHeaderValue || !bytes.Equal(plB, e.Payload) {
+			return fmt.Sprintf("exchange-modified-by-verify(valid=%v)", ok)
+		}
+		p2, ok2 := e.Verify(time.Unix(sec, nsec), fetcher, log.New(ioutil.Discard, "", 0))
+		if ok2 != ok || !bytes.Equal(p, p2) {
+			return fmt.Sprintf("verify-not-repeatable(%v,%v)", ok, ok2)
+		}
 		if !ok {
 			return "invalid"
 		}
@@ -581,6 +594,64 @@ func init() {
 			e.ResponseHeaders[k] = v
 		}
 		return verifyWith(e, rest)
+	})
+	// the property's own round trip, with no model in between (used for inputs outside the model's domain, e.g. header names with
+	// non-ASCII letters): sign, verify, write, read back, compare every field, verify again. args: <exchange> <rs> <cert> <key> <certurl> <validityurl> <date> <expires> <chain> <verification time>
+	register("sxg.rt.sign", func(args []string) string {
+		e, rest := parseExchange(args)
+		rs, _ := strconv.Atoi(rest[0])
+		if rs > 0 {
+			if err := e.MiEncodePayload(rs); err != nil {
+				return "refused mi"
+			}
+		}
+		sg := mkSigner(rest[1:], false)
+		if err := e.AddSignatureHeader(sg); err != nil {
+			return "refused sign"
+		}
+		chain := ofHex(rest[7])
+		at := parseTimeArg(rest[8])
+		fetcher := func(u string) ([]byte, error) { return chain, nil }
+		p1, ok1 := e.Verify(at, fetcher, log.New(ioutil.Discard, "", 0))
+		var buf bytes.Buffer
+		if err := e.Write(&buf); err != nil {
+			return "refused write"
+		}
+		e2, err := sxg.ReadExchange(bytes.NewReader(buf.Bytes()))
+		if err != nil {
+			return "written-but-not-readable: " + strings.ReplaceAll(err.Error(), " ", "_")
+		}
+		diffs := []string{}
+		if e2.Version != e.Version || e2.RequestURI != e.RequestURI || e2.RequestMethod != e.RequestMethod || e2.ResponseStatus != e.ResponseStatus {
+			diffs = append(diffs, "prologue")
+		}
+		if e2.SignatureHeaderValue != e.SignatureHeaderValue {
+			diffs = append(diffs, "signature")
+		}
+		if !bytes.Equal(e2.Payload, e.Payload) {
+			diffs = append(diffs, "payload")
+		}
+		fold := func(h http.Header) map[string]string {
+			m := map[string]string{}
+			for k, v := range h {
+				m[strings.ToLower(k)] = strings.Join(v, ",")
+			}
+			return m
+		}
+		if !reflect.DeepEqual(fold(e.RequestHeaders), fold(e2.RequestHeaders)) {
+			diffs = append(diffs, "request-headers")
+		}
+		if !reflect.DeepEqual(fold(e.ResponseHeaders), fold(e2.ResponseHeaders)) {
+			diffs = append(diffs, "response-headers")
+		}
+		p2, ok2 := e2.Verify(at, fetcher, log.New(ioutil.Discard, "", 0))
+		if ok1 != ok2 || !bytes.Equal(p1, p2) {
+			diffs = append(diffs, fmt.Sprintf("verdict(before=%v,after=%v)", ok1, ok2))
+		}
+		if len(diffs) > 0 {
+			return "differs: " + strings.Join(diffs, ",")
+		}
+		return "same"
 	})
 	// the process's local time zone is an input too (time.Unix yields local times; calendar arithmetic depends on the zone)
 	register("sxg.verify.tz", func(args []string) string {
